@@ -62,3 +62,14 @@ add("C09.private_replace","VH_c09_private_replace",TBL,c09,expect_reach=["end"])
 SRV="pkg/server"
 sc=["server/common.go"]
 add("C09.filterpath","VH_c09_filterpath",SRV,sc+["server/c09.go"],expect_reach=["end"],bounds="target eBGP or iBGP (RR client or not) with symbolic AS; route from another peer (symbolic AS, RR client or not) or from the same router; AS_PATH of 3 shapes (SEQ, SEQ+SET, CONFED_SEQ+SEQ) with symbolic ASNs")
+c13=tc+["table/c13.go"]
+NPAT=27
+for k in range(NPAT):
+    add("C13.single.p%02d"%k,"VH_c13_single",TBL,c13,{"unwind":70000},{"unwind":70000},expect_reach=["end"],pins={"pat":k},bounds="one pattern of the pool (index in the id), one community with all 2^32 values symbolic, any/all/invert")
+for k in range(10):
+    add("C13.pair.q%d"%k,"VH_c13_pair",TBL,c13,{"params":{"ncomm":1},"unwind":70000},{"params":{"ncomm":2},"unwind":70000,"harness_s":2400},expect_reach=["end"],pins={"pair":k},bounds="a two-pattern set, 1 (quick) / 2 symbolic communities, any/all/invert")
+    add("C13.edit.q%d"%k,"VH_c13_edit",TBL,c13,{"unwind":70000},{"unwind":70000},expect_reach=["end"],pins={"pair":k},bounds="Append / Append+Remove / Replace on a one-pattern set, then one symbolic community")
+for k in range(12):
+    add("C13.ext.s%02d"%k,"VH_c13_ext",TBL,c13,{"params":{"lamax":999999},"unwind":70000},{"params":{"lamax":0},"unwind":70000,"harness_s":2400},expect_reach=["end"],pins={"set":k},symbolic_text=True,bounds="one ext-community set of the pool (1-2 patterns), one two-octet-AS community with symbolic sub-type (rt/soo), AS (16 bit), local admin (32 bit) and transitivity, any/all/invert")
+for k in range(4):
+    add("C13.ext_edit.s%d"%k,"VH_c13_ext_edit",TBL,c13,{"params":{"lamax":999999},"unwind":70000},{"params":{"lamax":0},"unwind":70000,"harness_s":2400},expect_reach=["end"],pins={"set":k},symbolic_text=True)
